@@ -33,9 +33,29 @@ type tapeReader struct {
 	chunk    int
 	contLen  int // bytes still expected by the ReadFull in progress (0 = none)
 	replayOf int // offset inside replay[0] already served
+	failKind int // see failErr
 }
 
 var errTape = errors.New("tape: read failed")
+
+// failErr is the error of a read that the tape marks as failing.  Which error it is must not matter to a caller that
+// reports every failed read — so the replay hands out io.EOF, io.ErrUnexpectedEOF or a plain error, chosen by the text
+// of the op line (stable for a given line).  A source that simply ends (EOF) is the commonest real failure.
+func (t *tapeReader) failErr() error {
+	if t.failKind == 0 {
+		t.failKind = 1 + int(tapeFailSalt%3)
+	}
+	switch t.failKind {
+	case 1:
+		return io.EOF
+	case 2:
+		return io.ErrUnexpectedEOF
+	}
+	return errTape
+}
+
+// tapeFailSalt is set from the text of the op line being executed (execOp), so that the choice is stable for a given line.
+var tapeFailSalt uint32
 
 func (t *tapeReader) Read(p []byte) (int, error) {
 	t.mu.Lock()
@@ -75,7 +95,7 @@ func (t *tapeReader) Read(p []byte) (int, error) {
 		}
 		if t.replay[0].fail {
 			t.replay = t.replay[1:]
-			return 0, errTape
+			return 0, t.failErr()
 		}
 		rest := t.replay[0].data[t.replayOf:]
 		n := len(p)
@@ -116,7 +136,7 @@ func (t *tapeReader) Read(p []byte) (int, error) {
 	e := t.replay[0]
 	t.replay = t.replay[1:]
 	if e.fail {
-		return 0, errTape
+		return 0, t.failErr()
 	}
 	if len(e.data) != len(p) {
 		t.mismatch = true
